@@ -44,6 +44,7 @@ ActionFor(label) ==
       [] label = "close" -> C!Close
       [] label = "meta_ap" -> C!MetaAP
       [] label = "meta_lf" -> C!MetaLF
+      [] label = "damage" -> C!Damage
       [] label = "check" -> C!Check
       [] label = "check_closing" -> C!CheckClosing
       [] label = "compress_orig" -> C!CompressOrig
